@@ -77,6 +77,18 @@ def attvalWs (c : Char) : Char :=
 
 def attval (s : List Char) : List Char := encode (s.map attvalWs)
 
+/-- docutils `HTMLTranslator.starttag`, the part that writes one attribute:
+`'%s="%s"' % (name.lower(), self.attval(str(value)))` (names are given in lower case). This is the
+writer every directive argument / option that ends up in an attribute goes through (image `alt`,
+`uri`, `target`, `class`, `name`, `title`). -/
+def starttagAttr (name value : List Char) : List Char :=
+  name ++ ['=', '"'] ++ attval value ++ ['"']
+
+/-- `starttag(node, tagname, '', **{name: value})` for a node without ids/classes and one string
+attribute: `<tagname name="attval(value)">` -/
+def starttag1 (tag name value : List Char) : List Char :=
+  '<' :: tag ++ [' '] ++ starttagAttr name value ++ ['>']
+
 /-! ## 2. `html2stan`: control characters -/
 
 def hexDigit (n : Nat) : Char :=
